@@ -43,6 +43,8 @@ func corpusTypes() []*m.TNode {
 		// annotations below every kind of parent (conformance must recurse past an Equals that answers false)
 		m.ListOf(oaOpt), m.ListOf(oa), m.SetOf(oaOpt), m.SetOf(oa), m.MapOf(oaOpt), m.MapOf(oa), m.TupleOf(oaOpt), m.TupleOf(oa),
 		obj(nil, "a", oaOpt), obj(nil, "a", oa), obj(opt("a"), "a", oaOpt), obj(opt("a"), "a", oa),
+		// annotated objects as attributes of wider objects (stripping must recurse into every attribute)
+		obj(nil, "a", oaOpt, "b", N), obj(opt("b"), "a", oaOpt, "b", oaOpt), obj(opt("a", "c"), "a", N, "b", m.TupleOf(S, oaOpt, N, oaOpt), "c", m.MapOf(oaOpt)),
 		m.SetOf(obj(opt("a"), "a", D)), m.SetOf(obj(nil, "a", N)), m.SetOf(obj(opt("a"), "a", N)), m.SetOf(obj(opt("a"), "a", S, "b", N)),
 		// capsules inside
 		m.ListOf(capA()), m.ListOf(capB()), m.SetOf(m.ListOf(capA())), m.TupleOf(S, capA()), m.TupleOf(S, capB()), obj(nil, "a", capA()), obj(opt("a"), "a", capB()), m.MapOf(obj(nil, "a", S, "b", capA())),
@@ -170,6 +172,11 @@ func (r *run) direct() {
 	expectEq("list of same-name capsule", cty.List(sameNative), cty.List(m.CapsuleA), false)
 	expectEq("object of same-name capsule", cty.Object(map[string]cty.Type{"a": sameName}), cty.Object(map[string]cty.Type{"a": m.CapsuleA}), false)
 	expectEq("tuple of same-name capsule", cty.Tuple([]cty.Type{cty.String, sameName}), cty.Tuple([]cty.Type{cty.String, m.CapsuleA}), false)
+	expectEq("set of same-name capsule", cty.Set(sameNative), cty.Set(m.CapsuleA), false)
+	expectEq("map of same-name capsule", cty.Map(sameName), cty.Map(m.CapsuleA), false)
+	expectEq("same-name capsule three levels down", cty.Map(cty.Tuple([]cty.Type{cty.Number, cty.ObjectWithOptionalAttrs(map[string]cty.Type{"a": cty.String, "b": sameNative}, []string{"b"})})),
+		cty.Map(cty.Tuple([]cty.Type{cty.Number, cty.ObjectWithOptionalAttrs(map[string]cty.Type{"a": cty.String, "b": m.CapsuleA}, []string{"b"})})), false)
+	expectEq("two same-name capsules against each other", sameName, sameNative, false)
 	// constructor aliases
 	at := map[string]cty.Type{"a": cty.String, "b": cty.Number}
 	expectEq("empty optional list is no annotation", cty.ObjectWithOptionalAttrs(at, []string{}), cty.Object(at), true)
